@@ -401,6 +401,10 @@ def build_cpp(name, srcs, flags=None, libs=None, mpi=False, shim=False, sanitize
     if sanitize is None and os.environ.get("VERIF_SANITIZE") and (not mpi or os.environ.get("VERIF_SANITIZE_MPI")):
         sanitize = os.environ["VERIF_SANITIZE"]          # C07: rebuild every harness with sanitizers
         name = name + "_" + sanitize
+    if sanitize is None and not any("-fsanitize" in f for f in flags) and os.environ.get("VERIF_NDEBUG", "1") != "0":
+        # the library's default build type is Release: the plain harness builds define NDEBUG like it does (assert() compiled out); the sanitizer builds
+        # (C07's re-execution of every stream, C18's UBSan builds, C03's TSan build) keep the assertions, so both configurations see the same inputs
+        base.append("-DNDEBUG")
     if sanitize == "asan":
         base += ["-fsanitize=address,undefined", "-fno-sanitize-recover=all", "-fno-omit-frame-pointer"]
     elif sanitize == "tsan":
